@@ -380,6 +380,11 @@ func (r *Run) doRecv(t *Thread, ch *ChanObj) (Value, bool) {
 		// becomes enabled through canSend.
 		return v, true
 	}
+	if ch.closed {
+		// a sender that arrives at a closed channel panics when it runs; it is never a partner
+		r.acquire(t, ch.sync)
+		return r.zero(ch.typ.Elem()), false
+	}
 	if u, ci := r.otherWaiting(t, ch, true); u != nil {
 		v := u.pend.cases[ci].val
 		join(t.vc, u.vc)
@@ -394,10 +399,6 @@ func (r *Run) doRecv(t *Thread, ch *ChanObj) (Value, bool) {
 		}
 		comp(ci, nil, true)
 		return v, true
-	}
-	if ch.closed {
-		r.acquire(t, ch.sync)
-		return r.zero(ch.typ.Elem()), false
 	}
 	r.fail("doRecv on a channel that is not ready")
 	return nil, false
